@@ -109,6 +109,8 @@ pub fn run_case(rng: &mut Rng, maxops: u64) -> String {
         lossy: false,
         thr: 1,
         reclaimers: 1,
+        reins: 0,
+        bsize: BLOCK,
         domain: "fault".into(),
         hmode: HMode::Id,
         keys: rng.range(2, 4),
